@@ -1,6 +1,8 @@
 package rules
 
 import (
+	"go/token"
+	"sort"
 	"strings"
 
 	"golang.org/x/tools/go/ssa"
@@ -83,6 +85,7 @@ func c01(c *Ctx) {
 	r.Decides("every delta handed up the tree is new-minus-old around the mutation (bracket), and a request delta applied starting at a quota's parent is computed from the quota's max-limited request")
 	r.Decides("the tree rebuild replays the saved request/used of every quota unconditionally")
 	r.Decides("quotaInfoMap / runtimeQuotaCalculatorMap / quotaTopoNodeMap are written only under hierarchyUpdateLock held for writing and read under it")
+	r.Decides("clearForResetNoLock resets every incrementally accumulated figure; the plugin's pod handlers hand every event to each affected tree's manager that exists")
 	r.Declines("that the leaf-to-root deltas add up to the recomputed totals (clamping at zero, min-raise, hand-over arithmetic); read-side races on QuotaInfo")
 
 	// ---- pairing
@@ -283,6 +286,53 @@ func c01(c *Ctx) {
 		r.Floor("PATH", "replay calls in rebuildAllGroupQuotaNoLock", n, 2)
 	}
 
+	// ---- reset clears every accumulated figure
+	r.Rule("TABLE(reset): every QuotaCalculateInfo field that package core updates incrementally (a store whose value derives from the field's own previous value) is assigned a fresh value in clearForResetNoLock, so the replay after a tree reset starts from zero")
+	if fn := c.Fn(quotaCorePkg, "QuotaInfo", "clearForResetNoLock"); fn != nil {
+		accumulated := map[string]string{}
+		for _, f := range c.PkgFuncs(quotaCorePkg) {
+			for _, b := range f.Blocks {
+				for _, in := range b.Instrs {
+					st, ok := in.(*ssa.Store)
+					if !ok {
+						continue
+					}
+					owner, field, base, ok := an.FieldOf(st.Addr)
+					if !ok || !strings.HasSuffix(owner, "QuotaCalculateInfo") {
+						continue
+					}
+					self := false
+					for x := range backwardAll(st.Val) {
+						if ld, ok := x.(*ssa.UnOp); ok {
+							if o2, f2, b2, ok := an.FieldOf(ld.X); ok && o2 == owner && f2 == field && an.Path(b2) == an.Path(base) {
+								self = true
+							}
+						}
+					}
+					if self {
+						accumulated[field] = c.InstrPos(st)
+					}
+				}
+			}
+		}
+		cleared := map[string]bool{}
+		for _, b := range fn.Blocks {
+			for _, in := range b.Instrs {
+				if st, ok := in.(*ssa.Store); ok {
+					if owner, field, _, ok := an.FieldOf(st.Addr); ok && strings.HasSuffix(owner, "QuotaCalculateInfo") {
+						cleared[field] = true
+					}
+				}
+			}
+		}
+		r.Floor("TABLE", "incrementally updated QuotaCalculateInfo fields", len(accumulated), 6)
+		for _, f := range keysOf2(accumulated) {
+			r.Check(cleared[f], "TABLE", fkey(fn)+"/clears/"+f, c.Pos(fn.Pos()), f+" is reset", "QuotaCalculateInfo."+f+" is accumulated incrementally (e.g. at "+accumulated[f]+") but not reset by clearForResetNoLock: the replay after a tree reset adds the saved amount on top of the stale one (counted twice)")
+		}
+	}
+
+	c01plugin(c)
+
 	// ---- LOCK
 	r.Rule("LOCK: GroupQuotaManager.{quotaInfoMap,runtimeQuotaCalculatorMap,quotaTopoNodeMap} are read under hierarchyUpdateLock (R/W) and written under the write lock; *NoLock helpers pass the requirement to their callers")
 	c.RunLock("LOCK", LockCfg{Pkg: quotaCorePkg, Type: "GroupQuotaManager", Mutex: "hierarchyUpdateLock",
@@ -302,4 +352,183 @@ func instrBefore(a, b ssa.Instruction) bool {
 		return instrIndex(a) < instrIndex(b)
 	}
 	return a.Block().Dominates(b.Block())
+}
+
+func keysOf2(m map[string]string) []string {
+	var out []string
+	for k := range m {
+		out = append(out, k)
+	}
+	sort.Strings(out)
+	return out
+}
+
+
+// c01plugin: the plugin's informer handlers always hand the event to the manager(s) that exist.
+func c01plugin(c *Ctx) {
+	r := c.R
+	r.Rule("PATH(plugin events): in Plugin.OnPodUpdate, for a pod that stays in one tree whose manager exists: no quota->quota' reaches OnPodAdd, quota->quota' reaches OnPodUpdate, quota->none reaches OnPodDelete on every path; for a pod that changes tree: whenever the old tree's manager exists and the old quota is set, OnPodDelete(old) is reached whatever the state of the new tree's manager, and symmetrically OnPodAdd(new); Plugin.OnPodAdd / handlePodDelete reach the manager whenever quota name and manager exist")
+	fn := c.Fn(quotaPluginPkg, "Plugin", "OnPodUpdate")
+	if fn == nil {
+		return
+	}
+	key := fkey(fn)
+	var assoc [2]*ssa.Call // old, new
+	for _, cl := range an.Calls(fn, false) {
+		if an.ShortCallee(cl.Common()) == "getPodAssociateQuotaNameAndTreeID" {
+			call, _ := cl.(*ssa.Call)
+			p := an.Path(cl.Common().Args[1])
+			if strings.Contains(p, "oldObj") {
+				assoc[0] = call
+			} else if strings.Contains(p, "newObj") {
+				assoc[1] = call
+			}
+		}
+	}
+	if assoc[0] == nil || assoc[1] == nil {
+		r.Unknown("PATH", key+"/shape", c.Pos(fn.Pos()), "quota association of the old and new pod not recognised")
+		return
+	}
+	name := [2]ssa.Value{extract(assoc[0], 0), extract(assoc[1], 0)}
+	tree := [2]ssa.Value{extract(assoc[0], 1), extract(assoc[1], 1)}
+	var mgrs [2][]ssa.Value
+	for _, cl := range an.Calls(fn, false) {
+		if an.ShortCallee(cl.Common()) == "GetGroupQuotaManagerForTree" {
+			for i := 0; i < 2; i++ {
+				if cl.Common().Args[1] == tree[i] {
+					mgrs[i] = append(mgrs[i], cl.Value())
+				}
+			}
+		}
+	}
+	// cmp facts
+	type scen struct {
+		id             string
+		same           an.Abs // True/False
+		oldSet, newSet an.Abs // True / False / Unknown
+		mgr            [2]bool
+		want           string
+		wantName       int
+	}
+	scens := []scen{
+		{"same-tree/none->quota", an.True, an.False, an.True, [2]bool{true, true}, "OnPodAdd", 1},
+		{"same-tree/quota->quota", an.True, an.True, an.True, [2]bool{true, true}, "OnPodUpdate", 1},
+		{"same-tree/quota->none", an.True, an.True, an.False, [2]bool{true, true}, "OnPodDelete", 0},
+		{"cross-tree/leave-old", an.False, an.True, an.Unknown, [2]bool{true, false}, "OnPodDelete", 0},
+		{"cross-tree/enter-new", an.False, an.Unknown, an.True, [2]bool{false, true}, "OnPodAdd", 1},
+	}
+	for _, s := range scens {
+		f := an.Facts{}
+		recognised := 0
+		for _, b := range fn.Blocks {
+			for _, in := range b.Instrs {
+				bo, ok := in.(*ssa.BinOp)
+				if !ok || (bo.Op != token.EQL && bo.Op != token.NEQ) {
+					continue
+				}
+				set := func(truthIfEq an.Abs) {
+					if truthIfEq == an.Unknown {
+						return
+					}
+					v := truthIfEq
+					if bo.Op == token.NEQ {
+						if v == an.True {
+							v = an.False
+						} else {
+							v = an.True
+						}
+					}
+					f[bo] = v
+					recognised++
+				}
+				switch {
+				case (bo.X == tree[0] && bo.Y == tree[1]) || (bo.X == tree[1] && bo.Y == tree[0]):
+					set(s.same)
+				case strings.HasSuffix(an.Path(bo.X), ".ResourceVersion") && strings.HasSuffix(an.Path(bo.Y), ".ResourceVersion"):
+					set(an.False)
+				default:
+					for i := 0; i < 2; i++ {
+						want := [2]an.Abs{s.oldSet, s.newSet}[i]
+						if bo.X == name[i] {
+							if str, ok := constString(bo.Y); ok && str == "" {
+								// name == "" is the negation of "set"
+								switch want {
+								case an.True:
+									set(an.False)
+								case an.False:
+									set(an.True)
+								}
+							}
+						}
+						for _, m := range mgrs[i] {
+							if bo.X == m && an.IsNilConst(bo.Y) && s.mgr[i] {
+								set(an.False)
+							}
+						}
+					}
+				}
+			}
+		}
+		reach := an.Explore(fn, nil, f, func(in ssa.Instruction) bool {
+			cl, ok := in.(ssa.CallInstruction)
+			if !ok || an.ShortCallee(cl.Common()) != s.want || cl.Common().StaticCallee() == nil || cl.Common().StaticCallee().Signature.Recv() == nil {
+				return false
+			}
+			a := cl.Common().Args
+			if len(a) < 3 || a[1] != name[s.wantName] {
+				return false
+			}
+			// receiver is a manager of the matching tree
+			for _, m := range mgrs[s.wantName] {
+				if a[0] == m {
+					return true
+				}
+			}
+			if s.same == an.True { // one tree: either lookup names the same manager
+				for _, m := range mgrs[1-s.wantName] {
+					if a[0] == m {
+						return true
+					}
+				}
+			}
+			return false
+		})
+		r.Check(recognised >= 3 && len(reach.Returns()) == 0, "PATH", key+"/"+s.id, c.Pos(fn.Pos()), s.want+" is reached on every path", sprintf("the handler can return without %s on the manager of the %s tree although that manager exists and the quota name is set (%d conditions recognised): the pod stays counted in (or never reaches) that quota", s.want, []string{"old", "new"}[s.wantName], recognised))
+	}
+	for _, h := range []struct{ fn, want string }{{"OnPodAdd", "OnPodAdd"}, {"handlePodDelete", "OnPodDelete"}} {
+		hf := c.Fn(quotaPluginPkg, "Plugin", h.fn)
+		if hf == nil {
+			continue
+		}
+		f := an.Facts{}
+		for _, b := range hf.Blocks {
+			for _, in := range b.Instrs {
+				switch x := in.(type) {
+				case *ssa.BinOp:
+					if x.Op != token.EQL && x.Op != token.NEQ {
+						continue
+					}
+					call, idx := an.ResultOfCall(x.X)
+					isName := call != nil && idx == 0 && an.ShortCallee(&call.Call) == "getPodAssociateQuotaNameAndTreeID"
+					isMgr := call != nil && an.ShortCallee(&call.Call) == "GetGroupQuotaManagerForTree" && an.IsNilConst(x.Y)
+					if isName || isMgr {
+						if x.Op == token.EQL {
+							f[x] = an.False
+						} else {
+							f[x] = an.True
+						}
+					}
+				case *ssa.Extract:
+					if ta, ok := x.Tuple.(*ssa.TypeAssert); ok && ta.CommaOk && x.Index == 1 {
+						f[x] = an.True
+					}
+				}
+			}
+		}
+		reach := an.Explore(hf, nil, f, func(in ssa.Instruction) bool {
+			cl, ok := in.(ssa.CallInstruction)
+			return ok && an.ShortCallee(cl.Common()) == h.want && cl.Common().StaticCallee() != nil && strings.HasSuffix(an.FullName(cl.Common().StaticCallee()), "GroupQuotaManager)."+h.want)
+		})
+		r.Check(len(f) >= 2 && len(reach.Returns()) == 0, "PATH", fkey(hf)+"/reaches-manager", c.Pos(hf.Pos()), "the manager's "+h.want+" is reached", sprintf("Plugin.%s can return for a pod with a quota name and an existing manager without calling the manager's %s (%d conditions recognised)", h.fn, h.want, len(f)))
+	}
 }
